@@ -113,6 +113,18 @@ def run(ctx):
             ctx.drift(f"BrownianSys N={N}: {res.violated} violated in the model of the current code")
         elif res.distinct != 2 * N + 1:
             raise tlc.TLCMachineryError(f"BrownianSys N={N} stopped after {res.distinct} states (model resolution exceeded)")
+    # adaptive-shaped histories: every accept/reject schedule of full step + two half steps, then the backward sweep
+    if not quick:
+        for (N, sub, cs, warm, H0, HMin) in ((2, 64, 2, 2, 64, 16), (2, 32, 0, 1, 32, 8), (3, 32, -1, 1, 32, 16)):
+            acfg = B.Cfg(N, sub, 0, cs, False, 0, warm, 1, False, Fuel=80, MaxEval=10 ** 6, MaxNodes=10 ** 6)
+            c = ("SPECIFICATION SpecA\n" + acfg.constants_cfg() + f"CONSTANTS H0={H0} HMin={HMin}\n"
+                 + "".join(f"INVARIANT {i}\n" for i in ["TypeOK", "Partition", "Tiles", "NoSameSpanChild", "AcceptedTile"]
+                           + BR.LIVE_INVS) + "CHECK_DEADLOCK FALSE\n")
+            res = tlc.run("BrownianAdaptive", cfg_text=c, timeout=1800, workers=8)
+            ctx.add_tlc(res, f"BrownianAdaptive N={N} Sub={sub} cache={cs} H0={H0} HMin={HMin}: all accept/reject schedules")
+            if not res.ok:
+                ctx.drift(f"BrownianAdaptive N={N}: {res.violated} violated in the model of the current code")
+
     # non-vacuity: the model of the pre-fix code must violate the same invariants
     legacy_expect = []
     res = sys_run(ctx, 32 if quick else 64, 3, 1, legacy=True)
